@@ -73,7 +73,8 @@ class Parsed:
         for t in self.hole_tokens.values():
             t._text = None
         for name, v in values.items():
-            self.hole_tokens[name]._text = v
+            if name in self.hole_tokens:       # (a derived page may lack some of the original's holes)
+                self.hole_tokens[name]._text = v
 
     def reset(self):
         for t in self.hole_tokens.values():
